@@ -51,3 +51,17 @@ TEXT["C17"] = dict(
          "with and without reverse DNS, observed in the JSON; the redaction predicate evaluated against the scripted network truth.",
     note="net.IP.IsPrivate / To4 are modelled (validated by the correspondence on every block boundary). HTTP handler query parsing is covered by C19's lab.",
     technique="Coq proof (finite sweep over byte values lifted to all addresses + list induction) + differential run of the real pipeline")
+
+TEXT["C18"] = dict(
+    text="Coq theorems: enrichment attaches exactly the resolver's answer for the same canonical address and changes nothing else; failed lookups leave names empty; cache: hit returns the stored value with zero callbacks, "
+         "failures are never stored, a success is served until expiry then recomputed, and over EVERY operation sequence a value served without callback came from an earlier successful callback for that key; providers: the result "
+         "is the first provider in order whose behaviour reaches a valid address before its deadline, no later provider is queried, a 4xx/invalid body is final after exactly one request. Correspondence: real RunTraceroute enrichment, "
+         "real cache.GetWithExpiration on op sequences, real GetPublicIP over a scripted RoundTripper, all under synctest.",
+    note="go-cache, backoff.Retry, net/http are modelled only. Completion orders of concurrent lookups are exercised by synctest scheduling, not enumerated.",
+    technique="Coq proof (invariant over cache operation sequences; induction over provider list) + differential runs of the real cache / GetPublicIP / enrichment under synctest")
+TEXT["C08"] = dict(
+    text="Coq theorems on the timed models: for ANY network script the parallel engine returns before timeout + delay*count + poll and the serial engine within count*max(timeout+poll, delay); with the caller's context cancelled at any "
+         "instant the receiver leaves within one poll interval and the sender within one send delay; GetPublicIP ends within providers x per-checker timeout for ANY provider behaviour; constants regenerated from source. "
+         "Correspondence: real engines (incl. cancellation at arbitrary instants), real GetPublicIP over a stalling RoundTripper and real reverse-DNS fan-out over a stalled resolver, elapsed virtual time compared exactly.",
+    note="PARTIAL: oracles — Source.Read returns by its deadline; HTTP client / resolver return by the deadline of the context they are given. SACK dial + handshake-read bounds and the RunTraceroute-level sum are stated in DESIGN but not yet modelled; serial-engine cancellation is checked on the implementation only.",
+    technique="Coq proof (fuel-indexed induction on timed engine models, bound invariant) + differential timing of the real code under synctest's virtual clock")
